@@ -53,6 +53,13 @@ def located_error(
         positions = original_error.positions  # type: ignore
     except AttributeError:
         positions = None
+    else:
+        # an arbitrary exception may carry an unrelated attribute of that name
+        if not (
+            isinstance(positions, (list, tuple))
+            and all(isinstance(position, int) for position in positions)
+        ):
+            positions = None
 
     with suppress_attribute_error:
         error_nodes = original_error.nodes  # type: ignore
